@@ -484,9 +484,23 @@ pub fn gen_seq_hdr(r: &mut Rng) -> SeqHdr {
             if t == (1, 13, 0) {
                 t.2 = 1;
             }
-            // identity matrix is only legal with 4:4:4; avoid it elsewhere to stay conformant
-            if t.2 == 0 && !(profile == 1) {
+            // The identity matrix (0) with other primaries / transfer than sRGB's is, as far as
+            // the header SYNTAX goes, an ordinary colour description: colour range, the profile's
+            // subsampling and the sample position follow as for any other matrix. (That encoders
+            // must pair it with 4:4:4 is a conformance constraint, not syntax - the property
+            // speaks of all syntactically valid headers.) One described header in five has it.
+            if r.chance(1, 5) {
+                t.2 = 0;
+                if r.chance(1, 2) {
+                    t.0 = 1;
+                } else if r.chance(1, 2) {
+                    t.1 = 13;
+                }
+            } else if t.2 == 0 && !(profile == 1) {
                 t.2 = 2;
+            }
+            if t == (1, 13, 0) {
+                t.0 = 2;
             }
             Some(t)
         }
